@@ -60,6 +60,11 @@ func VerifC20_Order(opA, dirA, vA, opB, dirB, vB int) {
 	encP.TagAny(tagPl, plB)
 	coldPayload := append([]byte(nil), encP.Bytes()...)
 	decCold, errCold := c20Decode(cold, dirB)
+	// a header-less value with version-gated fields, through the package-level
+	// function (no version is in force for it, whatever was marshalled before)
+	var cp CryptographicParameters
+	vfPopulate(reflect.ValueOf(&cp).Elem(), vfShapeOf(0, 4), "cp", false)
+	coldBare := append([]byte(nil), ttlv.MarshalTTLV(&cp)...)
 	// history: A first, on a reused encoder, caches cold at the start
 	ttlv.VerifResetPlanCaches()
 	msgA, _ := c20Message(opA, dirA, vA, "a.")
@@ -73,6 +78,8 @@ func VerifC20_Order(opA, dirA, vA, opB, dirB, vB int) {
 	enc.Clear()
 	enc.TagAny(tagPl, plB)
 	verifAssert("bare payload after a message on a reused encoder: no version leaks", verifBytesEq(enc.Bytes(), coldPayload))
+	_ = ttlv.MarshalTTLV(msgA)
+	verifAssert("header-less value after a message through MarshalTTLV: same bytes as before any message", verifBytesEq(ttlv.MarshalTTLV(&cp), coldBare))
 	warm := ttlv.MarshalTTLV(msgB)
 	verifAssert("warm caches: same bytes as fresh", verifBytesEq(warm, cold))
 	decWarm, errWarm := c20Decode(cold, dirB)
